@@ -70,7 +70,7 @@ class Engine:
     run_timeout_s = 1500
     minimise_budget_s = 120
     default_runs = {"quick": 256, "thorough": 10_000_000}
-    default_budget_s = {"quick": 70, "thorough": 900}
+    default_budget_s = {"quick": 60, "thorough": 900}
     determinism_sample = {"quick": 12, "thorough": 48}
     rule = (
         "one run = one generated project (documents carrying an error vocabulary for the nine recovery mechanisms, "
@@ -107,6 +107,11 @@ class Engine:
     def prepare(self):
         import docutils.core  # noqa: F401
         import sphinx.application  # noqa: F401
+        import sphinx.builders.dirhtml  # noqa: F401
+        import sphinx.builders.html  # noqa: F401
+        import sphinx.builders.latex  # noqa: F401
+        import sphinx.builders.texinfo  # noqa: F401
+        import sphinx.builders.text  # noqa: F401
         import sphinx.builders.xml  # noqa: F401
 
         import myst_parser.inventory  # noqa: F401
@@ -135,6 +140,21 @@ class Engine:
         if g.random() < 0.3:  # swarm: every recovery mechanism also has a "warning suppressed" branch
             cfg["suppress_warnings"] = sorted(g.sample(SUPPRESSIBLE, k=g.choice([1, 1, 2, 4])))
         hazards = gh.apply(g, proj, front_end, g.choice([0, 1, 1, 2, 3]))
+        if front_end == "sphinx" and len(proj["docs"]) >= 2 and g.random() < 0.35:
+            # an orphan: a document outside every toctree (and so outside the latex/texinfo document tree)
+            orphan = g.choice(proj["docs"])
+            files["index.md"] = "\n".join(ln for ln in files["index.md"].split("\n") if ln.strip() != orphan)
+            if g.random() < 0.5 and not files[orphan + ".md"].startswith("---"):
+                files[orphan + ".md"] = "---\norphan: true\n---\n\n" + files[orphan + ".md"]
+            # ... and references to it from inside the tree, in every "any"-style spelling
+            files[orphan + ".md"] = files[orphan + ".md"].rstrip("\n") + "\n\n(orph-lab)=\n## Orphan Section\n\ntext\n"
+            others = [d for d in proj["docs"] if d != orphan]
+            src = g.choice(others)
+            rel = gd.relpath_from(src, orphan)
+            files[src + ".md"] = files[src + ".md"].rstrip("\n") + (
+                f"\n\n[t](orph-lab) [](#orph-lab) [t](/{orphan}) []({rel}.md) []({rel}.md#orphan-section) "
+                f"{{ref}}`orph-lab` {{doc}}`/{orphan}` <project:#orph-lab> <project:{rel}.md>\n")
+            hazards.append("orphan_document")
         urls: dict = {}
         inv_hazards: list = []
         parse_docs: list = []
@@ -157,9 +177,12 @@ class Engine:
                                 files[d] = head + "\n\n" + links + sep + tail
         base = {"engine": self.name, "front_end": front_end, "files": files, "cfg": cfg, "urls": urls,
                 "parse_docs": parse_docs, "hazards": hazards + inv_hazards,
-                "builder": "xml" if g.random() < 0.85 else "html",
+                # post-transforms depend on the builder (latex/texinfo raise NoUri for documents outside their tree)
+                "builder": g.choice(["xml"] * 10 + ["html"] * 3 + ["latex", "latex", "latex", "texinfo", "texinfo", "text",
+                                     "dirhtml"]),
                 "error_handler": g.choice(["strict", "strict", "replace", "backslashreplace"])}
         if sweep:
+            base["builder"] = "xml"  # a sweep is ~100 builds of one workload: keep them cheap
             return {**base, "mode": "sweep"}
         picks = []
         for _ in range(f.choice([3, 4, 6])):
